@@ -11,7 +11,7 @@ from anytree.exporter import MermaidExporter
 
 from .. import forest, refs, shapes, strategies
 from ..core import Violation
-from .c12 import NAME, TOKEN, esc, expected_structure, special_names
+from .c12 import NAME, NODE_CLASSES, TOKEN, esc, expected_structure, special_names
 
 PROP_ID = "C13"
 LEVEL = "exploration"
@@ -31,7 +31,8 @@ ASSUMPTIONS = [
 
 def check_case(case, acc):
     names = case["names"]
-    tree = forest.build_tree(case["shape"], lambda i: Node(names[i]))
+    nodecls = NODE_CLASSES[case.get("cls", "Node")]
+    tree = forest.build_tree(case["shape"], lambda i: nodecls(names[i]))
     labels = forest.Labels(tree)
     _once(case, acc, tree, labels)
     for op in case.get("mutations", []):
@@ -189,7 +190,7 @@ def _enum_cases(max_nodes, index, count):
             for stop in shapes.subsets(sub):
                 for hide in shapes.subsets(sub):
                     for maxlevel in [None] + list(range(0, height + 3)):
-                        yield {"shape": forest.to_list(shape), "names": names, "start": start, "stop": stop, "hide": hide, "maxlevel": maxlevel, "indent": k % 3}
+                        yield {"shape": forest.to_list(shape), "names": names, "start": start, "stop": stop, "hide": hide, "maxlevel": maxlevel, "indent": k % 3, "cls": ("Node", "EqNode", "Node", "FalsyNode", "LenNode")[k % 5]}
 
 
 @st.composite
@@ -207,6 +208,7 @@ def random_cases(draw):
         "maxlevel": draw(st.one_of(st.none(), st.integers(0, 6))),
         "to_file": draw(st.integers(0, 9)) == 0,
         "mutations": draw(strategies.tree_mutations(max_ops=2, rename_values=NAME)),
+        "cls": draw(st.sampled_from(["Node", "Node", "EqNode", "FalsyNode", "LenNode"])),
     }
     if draw(st.booleans()):
         funcs = {}
